@@ -40,8 +40,14 @@ def damage(rnd, text, tier):
     k = 14 if tier == 'thorough' else 3
     for _ in range(k):
         pos = rnd.randrange(n + 1)
-        kind = rnd.choice(['ins', 'del', 'sub', 'trunc', 'tokdel', 'tokins'])
-        if kind == 'ins':
+        kind = rnd.choice(['ins', 'del', 'sub', 'trunc', 'tokdel', 'tokins', 'ctl'])
+        if kind == 'ctl':
+            # a character that str.splitlines() takes for a line boundary although the parser counts lines by '\n' only (form feed is
+            # white space for the grammar), followed somewhere later by a stray character
+            t = text[:pos] + rnd.choice('\x0c\x0c\x0b\x1c\x85\u2028\r') + text[pos:]
+            pos2 = rnd.randrange(pos, len(t) + 1)
+            t = t[:pos2] + rnd.choice('$#@') + t[pos2:]
+        elif kind == 'ins':
             t = text[:pos] + rnd.choice('$#@x, .:"9') + text[pos:]
         elif kind == 'del' and n:
             t = text[:pos] + text[pos + 1:]
@@ -122,7 +128,7 @@ def run(tier, seed):
             rep.violation('no diagnostic and no output file', info)
             continue
         if out.startswith('Parser error'):
-            pos = lark_first_error(text)
+            pos = lark_first_error(text.replace('\r\n', '\n').replace('\r', '\n'))      # (the command line reads the file with universal newlines)
             cited = None
             import re
             m = re.match(r'Parser error at line (\d+), col (\d+)\.', out)
@@ -191,7 +197,7 @@ def run(tier, seed):
         rep.notes.extend(tie_broken)
     rep.cov.update(cli_runs=len(plan), distribution=dist, diagnostic_text_cases=len(pecases))
     rep.assumptions += ['argparse, the interpreter exit path and file-system errors are not modelled',
-                        'sites classified KAssumed in Gen/MainSkeleton.v (Lark: e.get_context, the line index e.line-1 into splitlines()) are assumed not to raise',
+                        "sites classified KAssumed in Gen/MainSkeleton.v (Lark: e.get_context; the line index e.line-1 into the text split at newlines, which has as many lines as the parser counted) are assumed not to raise",
                         '-o/--optimize (needs the absent package ngo) and --debug are outside the theorem (fixed false)']
     return rep.finish(proof, rule='corpus texts (short ones) valid and damaged by character/token insertion, deletion, substitution, truncation at random positions, '
                                   'plus hand-written arbitrary texts; each with random flags (-c, --symbols, -p, --cnl2json) and optional output file; distinct by (text, flags)')
